@@ -186,3 +186,129 @@ def targets_overlap(tier):
     return [Target("subtypes.variadic_tuple_subtype.overlap_bound", "mypy.subtypes:SubtypeVisitor.variadic_tuple_subtype", setup_overlap,
                    cut_at="for overlap in range(max_overlap + 1)", ensures=[("largest-instance-of-the-left-variadic-item-reaches-the-right-prefix-and-suffix", ens_overlap)],
                    raises=(AssertionError,), overrides=ov, field_types=ft, note="both tuples variadic with a tuple[X, ...] unpack; region up to the overlap loop; _is_subtype an arbitrary boolean")]
+
+
+# ---- meet of a type variable with itself (TypeMeetVisitor.visit_type_var): 'the meet is a subtype of both
+# operands'.  Two occurrences of the same type variable can carry different upper bounds (narrowing); the meet
+# is below both only if its bound is below both: the result is the first operand when the bounds are equal,
+# otherwise the variable with the MEET of the two bounds.
+
+import mypy.meet as MEET
+
+BEQ = z3.Function("bounds_equal", IntS, IntS, BoolS)
+
+
+def setup_meet_tv(I):
+    self = I.make(TObj(MEET.TypeMeetVisitor), "self")
+    self.cands = [MEET.TypeMeetVisitor]
+    s, t = I.make(TObj(T.TypeVarType), "s"), I.make(TObj(T.TypeVarType), "t")
+    s.cands, t.cands = [T.TypeVarType], [T.TypeVarType]
+    self.fields["s"] = s
+    sid = I.make(TInt(), "typevar_id")
+    s.fields["id"] = sid
+    t.fields["id"] = sid  # the same type variable on both sides
+    for o, tag in ((s, "s"), (t, "t")):
+        ub = I.make(TObj(T.Type), tag + "_upper_bound")
+        ub.cands = [T.Instance, T.UnionType]
+        o.fields["upper_bound"] = ub
+    return {"args": [self, t], "s": s, "t": t}
+
+
+def bound_eq(I, args, kwargs):
+    a, b = args[0], args[1]
+    I.ctx.assume(BEQ(a.addr, a.addr))
+    return SBool(BEQ(a.addr, b.addr))
+
+
+def ens_meet_tv(I, env, res):
+    s, t = env["s"], env["t"]
+    sb, tb = s.fields["upper_bound"], t.fields["upper_bound"]
+    same = BEQ(sb.addr, tb.addr)
+    meets = [e for e in I.ctx.events if e[0] == "meet"]
+    copies = [e for e in I.ctx.events if e[0] == "copy_modified"]
+    if res is s and not copies:
+        return same
+    if len(copies) == 1 and len(meets) == 1 and res is copies[0][-1]:
+        m = meets[0]
+        ok = copies[0][1] is s and copies[0][2].get("upper_bound") is m[-1] and ((m[1] is sb and m[2] is tb) or (m[1] is tb and m[2] is sb))
+        return z3.And(z3.Not(same), z3.BoolVal(bool(ok)))
+    return z3.BoolVal(False)
+
+
+def targets_meet(tier):
+    def meet_contract(I, a, k):
+        o = I.make(TObj(T.Type), "meet_of_bounds")
+        I.ctx.events.append(("meet", a[1], a[2], o))
+        return o
+
+    def copy_contract(I, a, k):
+        o = I.new_object(T.TypeVarType)
+        I.ctx.events.append(("copy_modified", a[0], dict(k), o))
+        return o
+
+    ov = {"mypy.meet:TypeMeetVisitor.meet": meet_contract, "mypy.types:TypeVarType.copy_modified": copy_contract, "mypy.types:Instance.__eq__": bound_eq,
+          "mypy.types:UnionType.__eq__": bound_eq, "mypy.types:Type.__eq__": bound_eq}
+    return [Target("meet.visit_type_var.same_variable", "mypy.meet:TypeMeetVisitor.visit_type_var", setup_meet_tv, ensures=[("bound-of-the-meet-is-the-meet-of-the-bounds", ens_meet_tv)],
+                   raises=(), overrides=ov, field_types={("TypeVarType", "id"): TInt()}, note="both operands the same type variable; bound equality an uninterpreted reflexive relation; meet of the bounds by contract")]
+
+
+# ---- join of a fixed tuple with a variadic one, the variadic item of the result: it must be above every
+# item of the fixed tuple's middle part AND above the variadic operand's own item type X (the variadic operand
+# may have any number of X there): the new item is join(join of the middle items, X) -- X is joined in whether
+# or not the middle is empty.  Region from the call of split_with_prefix_and_suffix on.
+
+
+def setup_mid(I):
+    self = I.make(TObj(J.TypeJoinVisitor), "self")
+    variadic, fixed = I.make(TObj(T.TupleType), "variadic"), I.make(TObj(T.TupleType), "fixed")
+    variadic.cands, fixed.cands = [T.TupleType], [T.TupleType]
+    unpacked = I.make(TObj(T.Instance), "unpacked")
+    unpacked.cands = [T.Instance]
+    x = I.make(TObj(T.Type), "X")
+    unpacked.fields["args"] = SList([x])
+    variadic.fields["items"] = SList([I.new_object(T.UnpackType)])  # only the variadic item (empty prefix and suffix)
+    return {"args": [], "locals": {"self": self, "variadic": variadic, "fixed": fixed, "unpacked": unpacked, "prefix_len": SInt(0), "suffix_len": SInt(0)},
+            "x": x, "unpacked": unpacked}
+
+
+def ens_mid(I, env, res):
+    ev = I.ctx.events
+    jl = [e for e in ev if e[0] == "join_type_list"]
+    jt = [e for e in ev if e[0] == "join_types"]
+    cm = [e for e in ev if e[0] == "copy_modified"]
+    if len(cm) != 1 or len(jl) != 1:
+        return z3.BoolVal(False)
+    args = cm[0][2].get("args")
+    if not isinstance(args, SList) or len(args.items) != 1:
+        return z3.BoolVal(False)
+    new_item = args.items[0]
+    ok = any(e[-1] is new_item and ((e[1] is jl[0][-1] and e[2] is env["x"]) or (e[2] is jl[0][-1] and e[1] is env["x"])) for e in jt)
+    return z3.BoolVal(bool(ok))
+
+
+def targets_mid(tier):
+    def split_contract(I, a, k):
+        mid = I.make(TLList(TObj(T.Type)), "middle")
+        return STuple([SList([]), mid, SList([])])
+
+    def jl_contract(I, a, k):
+        o = I.make(TObj(T.Type), "join_of_middle")
+        I.ctx.events.append(("join_type_list", a[0], o))
+        return o
+
+    def jt_contract(I, a, k):
+        o = I.make(TObj(T.Type), "joined")
+        I.ctx.events.append(("join_types", a[0], a[1], o))
+        return o
+
+    def cm_contract(I, a, k):
+        o = I.new_object(T.Instance)
+        I.ctx.events.append(("copy_modified", a[0], dict(k), o))
+        return o
+
+    ov = {"mypy.join:split_with_prefix_and_suffix": split_contract, "mypy.types:split_with_prefix_and_suffix": split_contract, "mypy.join:join_type_list": jl_contract,
+          "mypy.join:join_types": jt_contract, "mypy.types:Instance.copy_modified": cm_contract, "mypy.types:UnpackType": lambda I, a, k: I.new_object(T.UnpackType)}
+    ft = {("TupleType", "items"): TLList(TObj(T.Type))}
+    return [Target("join.join_tuples.variadic_item_of_the_join", "mypy.join:TypeJoinVisitor.join_tuples", setup_mid, start_at="prefix, middle, suffix = split_with_prefix_and_suffix(",
+                   cut_at="if suffix_len:", ensures=[("variadic-item-joins-the-middle-items-with-the-variadic-operands-item-type", ens_mid)], raises=(), overrides=ov, field_types=ft,
+                   note="region after the split, prefix / suffix empty (their items are joined pairwise; not part of this contract); list(middle) of any length")]
